@@ -11,7 +11,8 @@ Triggers(e) == (IF RespelledRedirectKey(e.x) THEN {"RespelledRedirectKey"} ELSE 
 NoAuthPort(f) == LET sp == Split(<<47, 47>> \o f) np == NetParts(sp.netloc) IN ~HasProtocol(f) /\ ~np.hasuser /\ np.port = <<>>
 Failing(e, base) ==
   IF e.exc # "" THEN {"raises"} ELSE
-       UNION {Clause(e.r[i] = base[i], e.names[i]) : i \in 1..Len(e.r)}
+       \* (after a suffix swap only the strip_suffix outputs - even positions of the fingerprint event - must stay the same)
+       UNION {IF e.sw /\ i % 2 = 1 THEN {} ELSE Clause(e.r[i] = base[i], e.names[i]) : i \in 1..Len(e.r)}
   \cup Clause(e.pre = <<>> \/ e.pre = e.r[1], "redirection-is-a-prestep")
   \cup (IF e.fp THEN UNION {Clause(NoAuthPort(e.r[i]), "no-scheme-auth-port") : i \in 1..Len(e.r)} ELSE {})
 TrInit == l = 1 /\ v = <<>> /\ depth = 0 /\ out0 = <<>>
